@@ -53,6 +53,30 @@ Definition f_bits (x : float) : Z :=
   if (0 <? be)%Z then (sign + Z.shiftl be 52 + (mant - Z.shiftl 1 52))%Z
   else (sign + Z.shiftr mant (1 - be))%Z.
 
+(* round a binary64 value to the nearest binary32 value (ties to even), returned as a binary64;
+   overflow to infinity above the binary32 range; binary32 subnormals are handled by rounding at the
+   fixed exponent -149 *)
+Definition f_round32 (x : float) : float :=
+  if f_isnan x then x else
+  if f_isinf x then x else
+  if x =? 0 then x else
+  let a := abs x in
+  let (m, e) := f_frexp a in                      (* a = m * 2^e, m in [0.5,1) *)
+  let mant := Uint63.to_Z (normfr_mantissa m) in   (* 53-bit integer, a = mant * 2^(e-53) *)
+  (* keep 24 bits normally; fewer when e < -125 (binary32 subnormal range) *)
+  let drop := Z.max 29 (29 + (-125 - e)) in
+  let r :=
+    if (53 <? drop)%Z then 0%Z else
+    let q := Z.shiftr mant drop in
+    let rem := Z.land mant (Z.shiftl 1 drop - 1) in
+    let half := Z.shiftl 1 (drop - 1) in
+    if (half <? rem)%Z then (q + 1)%Z
+    else if (rem <? half)%Z then q
+    else if Z.even q then q else (q + 1)%Z in
+  let v := f_ldexp (f_of_Z r) (e - 53 + drop) in
+  let v := if 0x1.fffffep+127 <? v then infinity else v in
+  if x <? 0 then - v else v.
+
 Definition ln2_hi := 0x1.62e42fee00000p-1.
 Definition ln2_lo := 0x1.a39ef35793c76p-33.
 Definition inv_ln2 := 0x1.71547652b82fep+0.
